@@ -180,4 +180,230 @@ theorem sqlite_concurrent (progs : List (List (Op σ))) (sched : List Tick)
     ∧ runObs 1000 sqlStep 0 ([] : Tbl σ) lin = specObs ⟨true, true⟩ 1000 0 AMap.empty lin :=
   ⟨(atomic_linearizable sqlStep sched 0 0 [] progs).1, sqlite_refines_partial _ hs⟩
 
+/-! ## `delete_expired` removes only expired records, and says how many -/
+
+/-- Every table a history can produce holds at most one record per id. -/
+theorem mem_reachable_wf (h : List (Nat × Op σ)) : ∀ (now : Nat) (t : Tbl σ), WF t →
+    WF (runState memStep now t h).2 := by
+  induction h with
+  | nil => intro _ _ wf; exact wf
+  | cons x h ih => intro now t wf; obtain ⟨d, op⟩ := x; exact ih _ _ (memStep_wf wf _ _)
+
+theorem sqlite_reachable_wf (h : List (Nat × Op σ)) : ∀ (now : Nat) (t : Tbl σ), WF t →
+    WF (runState sqlStep now t h).2 := by
+  induction h with
+  | nil => intro _ _ wf; exact wf
+  | cons x h ih => intro now t wf; obtain ⟨d, op⟩ := x; exact ih _ _ (sqlStep_wf wf _ _)
+
+/-- **C13 (3), memory**: whatever the traversal order `ord` and the batch size, `delete_expired`
+    physically removes exactly the ids it lists: all of them held a record with `deadline ≤ now`
+    (so no live record is ever removed), nothing else changes, the reported count is the number of
+    records that disappeared, it respects the batch size, and without a batch size no expired
+    record is left behind. -/
+theorem mem_deleteExpired_exact (now : Nat) (batch : Option Nat) (ord : List Nat) (t : Tbl σ) (wf : WF t) :
+    ∃ ids, memStep now (.deleteExpired batch ord) t = (eraseAll t ids, .deleted ids.length ids)
+      ∧ (∀ i ∈ ids, ∃ r, get t i = some r ∧ r.deadline ≤ now)
+      ∧ (∀ j, j ∉ ids → get (eraseAll t ids) j = get t j)
+      ∧ (∀ j, j ∈ ids → get (eraseAll t ids) j = none)
+      ∧ (eraseAll t ids).length + ids.length = t.length
+      ∧ (∀ b, batch = some b → ids.length ≤ b)
+      ∧ (batch = none → ∀ j r, get (eraseAll t ids) j = some r → now < r.deadline) := by
+  refine ⟨memStaleIds t now batch ord, rfl, mem_staleIds_dead t now batch ord, ?_, ?_, ?_, ?_, ?_⟩
+  · intro j hj; rw [get_eraseAll]; simp [hj]
+  · intro j hj; rw [get_eraseAll]; simp [hj]
+  · refine length_eraseAll t _ wf ?_ ?_
+    · have hn : ∀ (q : Nat → Bool), ((iterOrder t ord).filter q).Nodup :=
+        fun q => List.Nodup.sublist List.filter_sublist (nodup_iterOrder t ord)
+      unfold memStaleIds
+      cases batch with
+      | none => exact hn _
+      | some b => exact List.Nodup.sublist (List.take_sublist _ _) (hn _)
+    · intro i hi
+      obtain ⟨r, hg, _⟩ := mem_staleIds_dead t now batch ord i hi
+      rw [← get_isSome_iff_mem_keys, hg]; rfl
+  · intro b hb; subst hb; simp only [memStaleIds]; exact List.length_take_le _ _
+  · intro hb j r hg
+    subst hb
+    rw [get_eraseAll] at hg
+    by_cases hj : j ∈ memStaleIds t now none ord
+    · simp [hj] at hg
+    · simp only [hj, if_false] at hg
+      rcases Nat.lt_or_ge now r.deadline with h | h
+      · exact h
+      · exfalso; apply hj
+        simp only [memStaleIds]
+        refine List.mem_filter.mpr ⟨(mem_iterOrder t ord j).mpr ?_, by simp [hg, memStale, h]⟩
+        rw [← get_isSome_iff_mem_keys, hg]; rfl
+
+/-- **C13 (3), SQLite**: same for the two `DELETE … WHERE deadline < unixepoch()` statements
+    (`nowS = now / 1000`); rows with `deadline = nowS` are not live either but are left for later. -/
+theorem sqlite_deleteExpired_exact (now : Nat) (batch : Option Nat) (ord : List Nat) (t : Tbl σ) (wf : WF t) :
+    ∃ ids, sqlStep now (.deleteExpired batch ord) t = (eraseAll t ids, .deleted ids.length ids)
+      ∧ (∀ i ∈ ids, ∃ r, get t i = some r ∧ r.deadline < now / 1000)
+      ∧ (∀ j, j ∉ ids → get (eraseAll t ids) j = get t j)
+      ∧ (∀ j, j ∈ ids → get (eraseAll t ids) j = none)
+      ∧ (eraseAll t ids).length + ids.length = t.length
+      ∧ (∀ b, batch = some b → ids.length ≤ b)
+      ∧ (batch = none → ∀ j r, get (eraseAll t ids) j = some r → now / 1000 ≤ r.deadline) := by
+  refine ⟨sqlExpiredIds t (now / 1000) batch ord, rfl, sql_expiredIds_dead t _ batch ord, ?_, ?_, ?_, ?_, ?_⟩
+  · intro j hj; rw [get_eraseAll]; simp [hj]
+  · intro j hj; rw [get_eraseAll]; simp [hj]
+  · refine length_eraseAll t _ wf ?_ ?_
+    · have hn : ∀ (q : Nat → Bool), ((iterOrder t ord).filter q).Nodup :=
+        fun q => List.Nodup.sublist List.filter_sublist (nodup_iterOrder t ord)
+      unfold sqlExpiredIds
+      cases batch with
+      | none => exact hn _
+      | some b => exact List.Nodup.sublist (List.take_sublist _ _) (hn _)
+    · intro i hi
+      obtain ⟨r, hg, _⟩ := sql_expiredIds_dead t _ batch ord i hi
+      rw [← get_isSome_iff_mem_keys, hg]; rfl
+  · intro b hb; subst hb; simp only [sqlExpiredIds]; exact List.length_take_le _ _
+  · intro hb j r hg
+    subst hb
+    rw [get_eraseAll] at hg
+    by_cases hj : j ∈ sqlExpiredIds t (now / 1000) none ord
+    · simp [hj] at hg
+    · simp only [hj, if_false] at hg
+      rcases Nat.lt_or_ge r.deadline (now / 1000) with h | h
+      · exfalso; apply hj
+        simp only [sqlExpiredIds]
+        refine List.mem_filter.mpr ⟨(mem_iterOrder t ord j).mpr ?_, by simp [hg, h]⟩
+        rw [← get_isSome_iff_mem_keys, hg]; rfl
+      · exact h
+
+/-! ## The specification says what the property says -/
+
+/-- `load` returns the live record — never an expired or absent one. -/
+theorem spec_load (p : Policy) (now i : Nat) (a : AMap σ) :
+    specStep p now (.load i) a = (a, .loaded ((a.liveAt now i).map (fun r => (r.state, r.deadline))))
+    ∧ ∀ st dl, (specStep p now (.load i) a).2 = .loaded (some (st, dl)) → now < dl ∧ a i = some ⟨st, dl⟩ := by
+  constructor
+  · simp only [specStep]; cases a.liveAt now i <;> rfl
+  · intro st dl h
+    simp only [specStep] at h
+    cases hl : a.liveAt now i with
+    | none => rw [hl] at h; cases h
+    | some r =>
+      rw [hl] at h
+      rw [liveAt_eq] at hl
+      obtain ⟨h1, h2⟩ := liveOpt_some hl
+      cases h
+      exact ⟨h2, h1⟩
+
+/-- `create` never overwrites a live record (strict policy: it fails with duplicate-id). -/
+theorem spec_create_live (b : Bool) (now i dl : Nat) (st : σ) (a : AMap σ) (r : Rec σ)
+    (h : a.liveAt now i = some r) : specStep (Policy.strict b) now (.create i st dl) a = (a, .dup) := by
+  simp [specStep, h, Policy.strict]
+
+/-- `create` on an absent or expired id succeeds and is what `load` returns while it is live. -/
+theorem spec_create_free (p : Policy) (now i dl : Nat) (st : σ) (a : AMap σ) (h : a.liveAt now i = none) :
+    specStep p now (.create i st dl) a = (a.set i (some ⟨st, dl⟩), .ok) := by
+  simp [specStep, h]
+
+/-- `update`, `update_ttl`, `delete`, `change_id` answer unknown-id on absent or expired records,
+    whatever else holds, and change nothing. -/
+theorem spec_unknown (p : Policy) (now i : Nat) (a : AMap σ) (h : a.liveAt now i = none) :
+    (∀ st dl, specStep p now (.update i st dl) a = (a, .unknown))
+    ∧ (∀ dl, specStep p now (.updateTtl i dl) a = (a, .unknown))
+    ∧ specStep p now (.delete i) a = (a, .unknown)
+    ∧ (∀ n, specStep p now (.changeId i n) a = (a, .unknown)) := by
+  simp [specStep, h]
+
+/-- A call that fails has no effect at all. -/
+theorem spec_failed_no_effect (p : Policy) (now : Nat) (op : SOp σ) (a : AMap σ)
+    (h : (specStep p now op a).2 = .dup ∨ (specStep p now op a).2 = .unknown) :
+    (specStep p now op a).1 = a := by
+  cases op <;> simp only [specStep] at h ⊢ <;> (repeat' split) <;> simp_all
+
+/-- `change_id` of a live record onto a free id is one step: afterwards the record (state and
+    deadline) is under the new id, the old id is gone, every other id is untouched. -/
+theorem spec_changeId_atomic (p : Policy) (now o n : Nat) (a : AMap σ) (r : Rec σ)
+    (ho : a.liveAt now o = some r) (hne : n ≠ o) (hn : a.liveAt now n = none) :
+    let post := (specStep p now (.changeId o n) a).1
+    (specStep p now (.changeId o n) a).2 = .ok
+    ∧ post.liveAt now n = some r ∧ post.liveAt now o = none ∧ ∀ j, j ≠ o → j ≠ n → post j = a j := by
+  have hl := (liveOpt_some (by rw [← liveAt_eq]; exact ho)).2
+  have ho' : ¬ o = n := fun h => hne h.symm
+  simp only [specStep, ho, hne, if_false, hn]
+  refine ⟨trivial, ?_, ?_, ?_⟩
+  · simp [AMap.liveAt, AMap.set, live, hl]
+  · simp [AMap.liveAt, AMap.set, ho']
+  · intro j h1 h2; simp [AMap.set, h1, h2]
+
+/-- `delete_expired` has no observable effect. -/
+theorem spec_deleteExpired (p : Policy) (now : Nat) (a : AMap σ) :
+    (specStep p now .deleteExpired a).1 = a := rfl
+
+/-- Calls that do not mention an id do not touch it. -/
+def SOp.mentions : SOp σ → Nat → Bool
+  | .create i _ _, j | .update i _ _, j | .updateTtl i _, j | .load i, j | .delete i, j => i == j
+  | .changeId o n, j => o == j || n == j
+  | .deleteExpired, _ => false
+
+theorem spec_frame (p : Policy) (now : Nat) (op : SOp σ) (a : AMap σ) (j : Nat) (h : op.mentions j = false) :
+    (specStep p now op a).1 j = a j := by
+  cases op with
+  | changeId o n =>
+    simp only [SOp.mentions, Bool.or_eq_false_iff, beq_eq_false_iff_ne] at h
+    have h1 : ¬ j = o := fun e => h.1 e.symm
+    have h2 : ¬ j = n := fun e => h.2 e.symm
+    simp only [specStep]
+    (repeat' split) <;> simp [AMap.set, h1, h2]
+  | deleteExpired => rfl
+  | load i => simp only [specStep]; split <;> rfl
+  | create i st dl | update i st dl | updateTtl i dl | delete i =>
+    simp only [SOp.mentions, beq_eq_false_iff_ne] at h
+    have h1 : ¬ j = i := fun e => h e.symm
+    simp only [specStep]
+    (repeat' split) <;> simp [AMap.set, h1]
+
+/-- **"load returns exactly what the last successful create/update wrote"**: after a successful
+    write of `(st, dl)` under id `i`, and any further calls that do not mention `i`, a `load i`
+    before the deadline returns exactly `(st, dl)`. -/
+theorem spec_load_last_write (p : Policy) (i : Nat) (st : σ) (dl : Nat) (h : List (Nat × SOp σ)) :
+    ∀ (now : Nat) (a : AMap σ), a i = some ⟨st, dl⟩ → (∀ x ∈ h, x.2.mentions i = false) →
+      ∀ d, now + (h.map (·.1)).sum + d < dl →
+      (runSpec p now a (h ++ [(d, .load i)])).getLast? = some (.loaded (some (st, dl))) := by
+  induction h with
+  | nil =>
+    intro now a ha _ d hd
+    simp only [List.map_nil, List.sum_nil, Nat.add_zero] at hd
+    simp [runSpec, specStep, AMap.liveAt, ha, live, hd]
+  | cons x h ih =>
+    obtain ⟨d0, op⟩ := x
+    intro now a ha hm d hd
+    have h1 := hm (d0, op) (List.mem_cons_self ..)
+    have := ih (now + d0) (specStep p (now + d0) op a).1 (by rw [spec_frame p _ op a i h1]; exact ha)
+      (fun x hx => hm x (List.mem_cons_of_mem _ hx)) d (by simp only [List.map_cons, List.sum_cons] at hd; omega)
+    simp only [List.cons_append, runSpec]
+    rw [List.getLast?_cons_of_ne_nil]
+    · exact this
+    · cases h <;> simp [runSpec]
+
+/-! ## Non-vacuity: the hypotheses are satisfiable on non-trivial instances -/
+
+-- a memory history with expiry, a collision, a rename and a batched purge
+example : runObs 1 memStep 0 ([] : Tbl Nat)
+    [(0, .create 1 7 5), (0, .create 1 8 5), (3, .load 1), (2, .load 1), (0, .create 2 9 10),
+     (0, .changeId 2 1), (1, .load 1), (0, .changeId 3 1), (0, .deleteExpired (some 1) [4, 1])]
+    = [.ok, .dup, .loaded (some (7, 5)), .loaded none, .ok, .ok, .loaded (some (9, 15)), .unknown, .deleted] := by
+  decide
+-- a SQLite history satisfying both hypotheses of `sqlite_refines_of_clean`, crossing the
+-- `deadline = unixepoch()` boundary (create at 0.5 s with TTL 1.6 s: deadline second 2)
+example : anyStep sqlStep sqlCreateOnLive 0 ([] : Tbl Nat)
+      [(500, .create 1 7 1600), (1400, .load 1), (100, .load 1), (0, .create 1 8 1000), (0, .load 1)] = false
+    ∧ anyStep sqlStep sqlSquattedRename 0 ([] : Tbl Nat)
+      [(500, .create 1 7 1600), (1400, .load 1), (100, .load 1), (0, .create 1 8 1000), (0, .load 1)] = false
+    ∧ runObs 1000 sqlStep 0 ([] : Tbl Nat)
+      [(500, .create 1 7 1600), (1400, .load 1), (100, .load 1), (0, .create 1 8 1000), (0, .load 1)]
+      = [.ok, .loaded (some (7, 2)), .loaded none, .ok, .loaded (some (8, 3))] := by
+  decide
+-- a schedule that really interleaves two tasks (and has an idle tick)
+example : (linearise 0 [[Op.create 1 (7 : Nat) 5, .load 1], [.delete 1, .load 1]] [⟨0, 0⟩, ⟨1, 1⟩, ⟨0, 5⟩, ⟨2, 1⟩, ⟨0, 0⟩]).map (·.1)
+    = [0, 1, 1, 0] := by decide
+example : (runConc memStep 0 ([] : Tbl Nat) [[Op.create 1 7 5, .load 1], [.delete 1, .load 1]]
+    [⟨0, 0⟩, ⟨1, 1⟩, ⟨0, 5⟩, ⟨2, 1⟩, ⟨0, 0⟩]).map (·.2) = [.ok, .ok, .loaded none, .loaded none] := by decide
+example : WF ([(1, ⟨7, 5⟩), (2, ⟨8, 0⟩)] : Tbl Nat) := by unfold WF keys; decide
+
 end Pxv.Store
